@@ -13,12 +13,12 @@ from vlib.py2ts import INT0
 MAIN = "def p(gw):\n    gw.serve()\n    G.served = 1\n"
 
 
-def sc_eof(bodies=(), backend="thread", wait_started=True):
+def sc_eof(bodies=(), backend="thread", wait_started=True, release=()):
     """The connection to the initiator is lost (EOF in the receiver thread) while `bodies` are executing:
     the real _terminate_execution ladder + serve()/integrate_as_primary_thread must end the process."""
     n = len(bodies)
     bd = {f"B{k}": kind for k, kind in enumerate(bodies)}
-    sc = e2.GatewayScenario(f"eof[{','.join(bodies) or 'idle'},{backend},started={wait_started}]", backend, bd or {"B0": "return"}, nworkers=max(1, n), extra_events=3)
+    sc = e2.GatewayScenario(f"eof[{','.join(bodies) or 'idle'},{backend},started={wait_started},release={list(release)}]", backend, bd or {"B0": "return"}, nworkers=max(1, n), extra_events=3)
     sc.add("main", MAIN, {"gw": sc.gw})
     params = ", ".join(["gw"] + [f"ch{k}, b{k}" for k in range(n)])
     body = "    await_(G.serving == 1)\n"
@@ -26,6 +26,9 @@ def sc_eof(bodies=(), backend="thread", wait_started=True):
         body += f"    gw._local_schedulexec(ch{k}, b{k})\n"
         if wait_started:
             body += f"    await_(G.ran_B{k} == 1)\n"
+    for k in release:
+        # a 'block' body is let go and finishes before the connection is lost (its thread - the main thread for the first body - is idle again)
+        body += f"    G.release_B{k} = 1\n    await_(G.fin_B{k} == 1)\n"
     # EOF: _thread_receiver's epilogue - channels get their end marker, then the execution is terminated
     body += "    G.eof = 1\n    gw._terminate_execution()\n    G.term_done = 1\n"
     args = {"gw": sc.gw}
@@ -66,6 +69,8 @@ def specs(tier: str):
             add(bodies=(kind,), backend=be, wait_started=True, sync=(kind in ("sleep", "swallow") and not thorough))
     add(bodies=("recv",), backend="thread", wait_started=False, sync=not thorough)
     add(bodies=("swallow", "swallow"), backend="thread", wait_started=True, sync=True)
+    # the main thread is idle again (its body finished) while a body in a secondary thread is still there when the connection goes
+    add(bodies=("block", "recv"), backend="thread", wait_started=True, release=(0,))
     if thorough:
         for kinds in (("sleep", "recv"), ("recv", "swallow"), ("swallow", "sleep")):
             add(bodies=kinds, backend="thread", wait_started=True, sync=True)
